@@ -75,7 +75,7 @@ theorem runCtor {m m' : Mem} (hi : LogInv m) {c : Ctor} {h : HV} (hc : runCtor m
 end LogInv
 
 /-- the memory a constructor that ran user code left behind -/
-def CtorRes.mem : CtorRes → Mem
+private def CtorRes.mem : CtorRes → Mem
   | .built m _ => m
   | .panicked m _ => m
 
